@@ -1605,3 +1605,157 @@ func c18r9(c *Ctx, r *Report) {
 	}
 	r.floor("stores into History.lines", n, 2)
 }
+
+// c14r11: a reload command carries the temporary files of its {f}/{+f} placeholders in a commandSpec. The
+// spec is handed from the action (Loop's newCommand) through the search request to the coordinator (Run's
+// nextCommand while the old reader is being terminated) and finally to Reader.restart, which removes the
+// files when the command has ended. Every place on that chain that can DROP a spec has to remove its files
+// (D36: a second reload in one action chain overwrote newCommand; a further reload overwrote nextCommand; on
+// quit a pending nextCommand was dropped; and when fzf exits while the reload command runs the process ends
+// before Reader.restart gets to its removeFiles).
+func c14r11(c *Ctx, r *Report) {
+	l := c.L
+	r.rule("C14-R11", "B (ownership hand-off: whoever drops a spec releases it)", "P1",
+		"(a) every store of a non-nil value into a captured *commandSpec variable is reachable from a removeFiles call on that variable's old tempFiles in the same function; (b) the coordinator's EvtQuit case removes the files of a pending nextCommand; (c) Reader.restart records the running command's files in the Reader and Reader.terminate removes them",
+		"files created for {f}/{+f} of a reload command stay in $TMPDIR when the reload is superseded or fzf exits during it")
+	remove := l.Fn("fzf", "removeFiles")
+	if remove == nil {
+		r.unest("anchors", token.NoPos, nil, "anchor removeFiles", "cannot resolve")
+		return
+	}
+	isSpecCell := func(t types.Type) bool {
+		p, ok := t.(*types.Pointer)
+		if !ok {
+			return false
+		}
+		p2, ok := p.Elem().(*types.Pointer)
+		if !ok {
+			return false
+		}
+		n, ok := p2.Elem().(*types.Named)
+		return ok && n.Obj().Name() == "commandSpec"
+	}
+	cellOf := func(f *ssa.Function, v ssa.Value) *ssa.Alloc {
+		switch x := v.(type) {
+		case *ssa.Alloc:
+			return x
+		case *ssa.FreeVar:
+			return freeVarAlloc(f, x)
+		}
+		return nil
+	}
+	// removeFiles calls on the old content of a cell
+	releases := func(f *ssa.Function, cell *ssa.Alloc) []*ssa.Call {
+		var out []*ssa.Call
+		eachInstr(f, func(in ssa.Instruction) {
+			call, ok := in.(*ssa.Call)
+			if !ok || !callIs(call.Common(), remove) {
+				return
+			}
+			for w := range backwardSlice(call.Call.Args[0], nil, nil) {
+				if u, ok := w.(*ssa.UnOp); ok && u.Op == token.MUL && isSpecCell(u.X.Type()) && cellOf(f, u.X) == cell {
+					out = append(out, call)
+					return
+				}
+			}
+		})
+		return out
+	}
+	nStore := 0
+	quitReleased := false
+	evtQuit := l.Const("fzf", "EvtQuit")
+	for _, fn := range l.AllFuncs() {
+		if fn.Blocks == nil || fn.Pkg != l.pkg("fzf") {
+			continue
+		}
+		var pc *PathConds
+		k := 0
+		eachInstr(fn, func(in ssa.Instruction) {
+			st, ok := in.(*ssa.Store)
+			if !ok || !isSpecCell(st.Addr.Type()) {
+				return
+			}
+			cell := cellOf(fn, st.Addr)
+			if cell == nil {
+				return
+			}
+			if kst, isK := st.Val.(*ssa.Const); isK && kst.IsNil() {
+				return
+			}
+			// the declaration's zero store / first initialisation in the declaring function's entry block
+			if fn == cell.Parent() && st.Block() == fn.Blocks[0] {
+				return
+			}
+			nStore++
+			k++
+			released := false
+			for _, rc := range releases(fn, cell) {
+				if canReach(rc, st) {
+					released = true
+				}
+			}
+			r.check(released, fmt.Sprintf("%s:overwrite #%d of %s releases the old spec", relName(rootFn(fn)), k, cell.Comment), st.Pos(), fn,
+				"the files of the spec being replaced are removed first", fmt.Sprintf("%s is overwritten without removing the temporary files of the spec it held", cell.Comment))
+		})
+		// (b) the quit case
+		if evtQuit != nil && rootFn(fn) == l.Fn("fzf", "Run") {
+			qv, _ := constInt(evtQuit)
+			eachInstr(fn, func(in ssa.Instruction) {
+				call, ok := in.(*ssa.Call)
+				if !ok || !callIs(call.Common(), remove) {
+					return
+				}
+				onSpec := false
+				for w := range backwardSlice(call.Call.Args[0], nil, nil) {
+					if u, ok := w.(*ssa.UnOp); ok && u.Op == token.MUL && isSpecCell(u.X.Type()) {
+						onSpec = true
+					}
+				}
+				if !onSpec {
+					return
+				}
+				if pc == nil {
+					pc = pathConds(fn)
+				}
+				if ks, ok := eqConstLits(pc, call.Block()); ok && ks[qv] {
+					quitReleased = true
+				}
+			})
+		}
+	}
+	r.floor("overwrites of a captured *commandSpec variable", nStore, 2)
+	if run := l.Fn("fzf", "Run"); run != nil {
+		r.check(quitReleased, relName(run)+":EvtQuit releases a pending reload command", run.Pos(), run, "the quit case removes the files of nextCommand", "on quit a reload command that was waiting for the old reader to end is dropped together with its temporary files")
+	}
+	// (c) the reader
+	fRT := l.Field("fzf", "Reader", "tempFiles")
+	term := l.Fn("fzf", "(*Reader).terminate")
+	rst := l.Fn("fzf", "(*Reader).restart")
+	if term == nil || rst == nil {
+		r.unest("anchors", token.NoPos, nil, "anchors Reader.terminate / Reader.restart", "cannot resolve")
+		return
+	}
+	recorded, removed := false, false
+	if fRT != nil {
+		eachInstr(rst, func(in ssa.Instruction) {
+			if st, ok := in.(*ssa.Store); ok {
+				if fld, _ := fieldOf(st.Addr); fld == fRT {
+					for w := range backwardSlice(st.Val, nil, nil) {
+						if f2, _ := fieldOf(w); f2 != nil && f2.Name() == "tempFiles" && f2 != fRT {
+							recorded = true
+						}
+					}
+				}
+			}
+		})
+		eachInstr(term, func(in ssa.Instruction) {
+			if call, ok := in.(*ssa.Call); ok && callIs(call.Common(), remove) {
+				if fld, _ := loadedField(call.Call.Args[0]); fld == fRT {
+					removed = true
+				}
+			}
+		})
+	}
+	r.check(recorded, relName(rst)+":records the running command's files", rst.Pos(), rst, "Reader.restart stores commandSpec.tempFiles in the Reader", "the Reader does not know the temporary files of the command it runs: nothing can remove them when fzf exits during the reload")
+	r.check(removed, relName(term)+":removes the running command's files", term.Pos(), term, "Reader.terminate removes them", "fzf exits while the reload command runs and the process ends before Reader.restart gets to removeFiles")
+}
